@@ -170,6 +170,17 @@ def fam_stream(rnd, tier):
                     c["sizes"] = [0, 3]
                     c["script"] = [act("recv"), act("ret", code=0)]
                     out.append(c)
+    # message sequences with messages exactly at the size limit (and one byte under it), plain and compressed: all of them
+    # are part of the sequence the handler must see
+    for proto in ["http", "grpc", "grpcweb", "grpcwebtext"]:
+        for comp in ["", "gzip"]:
+            for L in ([256, 1024] if tier == "quick" else [200, 256, 1024, 4096]):
+                for shape in ["cstream", "bidi"]:
+                    for codec in ["proto", "json"]:
+                        c = base(proto, shape, codec=codec, comp=comp, tag="stream", maxrecv=L, exact=True)
+                        c["sizes"] = [L // 4, L, L // 8, L - 1]
+                        c["script"] = [act("recv") for _ in range(5)] + ([act("send", size=1)] if shape == "bidi" else [act("send", size=2)]) + [act("ret", code=0)]
+                        out.append(c)
     return out
 
 
